@@ -21,6 +21,21 @@ CHECKS = {
     "C13": ("P progcheck", "bounded-exhaustive enumeration of run / add-facts histories over compiled programs x initial inputs x added fact sets vs the reference fixpoint of the union of all inputs",
             "Families F-scc, F-lat, F-agg: histories run;run and run;run;add S;run for every initial input of the budget and every single added fact (thorough: pairs and a second add;run), facts added to any relation incl. derived ones; idempotence for all programs, equality with a fresh run for programs without negation / aggregation.",
             "added lattice rows use keys the relation does not hold yet; no caller-made duplicate facts", "6 C13"),
+    "C06": ("P progcheck", "differential over syntactic variants of one logical program, all compiled by the real macros, compared with the reference on all inputs",
+            "Units from F-scc and F-shape; variants: every permutation of the rules (<= 4 rules), reversed / rotated declarations, reversed head clauses, every order of mutually independent body clauses, three adversarial variable namings (single letters, underscore variants that collide with generated suffixes, unicode), two relation renamings (alphabetical order reversed; prefixes of each other), injective renamings of the constants into i64 / String / a struct with colliding Hash (generic struct signature, both permutations of the domain), and every input in ascending, descending and rotated tuple order.",
+            "identifiers reserved by the generated code (__-prefixed internals) are not used as names; domain {0,1}", "6 C06"),
+    "C07": ("P progcheck", "differential sugared vs hand-expanded (by the harness's own expander implementing the documented rules) vs reference, all inputs",
+            "F-sugar: one- and two-clause bodies with every surface form (wildcard, constant, ?pattern binder / constant, repeated variable, expression over a variable of the same or of an earlier clause) alone (thorough: in pairs) in every argument position; negation (bound, wildcard, expression arguments), disjunction and nested disjunction, several head clauses, condition attached to the second clause of a simple join, body-less facts. The reference evaluator run on the sugared AST must agree with the expander on every input.",
+            "the expander is the documented semantics written down once", "6 C07"),
+    "C08": ("P progcheck", "differential with-macros vs hand expansion vs reference, all inputs, under every spelling clash",
+            "F-macro: 7 macro definitions (ident / expr parameters, locals, condition, disjunction, nested and 3-deep invocations, head macro, let + negation) x 16 call patterns (same macro twice, macro inside a disjunction, head and body position ...) x 7 naming schemes in which call-site variables are spelled like macro locals, like parameters, and like the names the renamer itself generates.",
+            "self-referential macros are covered by C15", "6 C08"),
+    "C09": ("P progcheck", "differential over packaging configurations, all compiled by the real macros, compared with the reference on all inputs",
+            "F-pack: programs from F-scc, F-lat, F-agg, F-shape, each as ascent! / ascent_run! (inputs captured from locals) / include_source with the text cut at item boundaries (every cut in thorough) under ascent!, ascent_run!, ascent_par! / relations declared with initialisers / every relation re-declared (later declaration and initialiser win) / measure_rule_times, generate_run_timeout, both / generic struct signature with and without a separate impl signature; the whole family a second time built with the cargo feature segment-codegen.",
+            "a core set of ~45 programs (quick)", "6 C09"),
+    "C15": ("P progcheck, two stages", "exhaustive enumeration of single ill-formedness mutations at every position x four macros; the real macro implementation runs inside rustc (hook), rustc judges what the macro accepts",
+            "From 30 (quick) well-formed base programs: undeclared relation and arity +-1 at every atom (heads, bodies, aggregates, negations, bodies of invoked macros); aggregate / negation of a relation in its own stratum directly, via a second rule, via a multi-head rule; rebinding a bound variable by let / if-let / generator / ?pattern / aggregate pattern after every body item; self- and mutually-recursive macros in body, head and disjunction position; include_source! inside ascent_source!; ds attribute on a lattice, two ds attributes; unknown inner / relation attributes; inter_rule_parallelism on serial macros. Every variant must be rejected by the macro (no panic) or by rustc with an error located at the program.",
+            "mutations are applied to the printed program text; hook verif_expand_status!", "6 C15"),
     "C10": ("P progcheck", "bounded-exhaustive insertion histories x access patterns on compiled programs with the real eqrel provider vs the explicit equivalence closure", 'Programs with a clocked feeder (the input relation sched(i,[k,]a,b) is the insertion history: which pair arrives in which iteration of the recursive stratum, keys that pause and resume), an at-once feeder, a feeder split over two strata and a self-feeding rule; one reader per access pattern (every subset of bound columns, constants, repeated variable, relation first / second in a simple join, self join) placed in a later stratum and inside the recursive stratum; binary and ternary form; all schedules with <= 3 facts over pairs {0,1,2}^2, times 0..2 (ternary: 2 keys); every reader relation compared with the explicit reflexive-symmetric-transitive closure computed by the naive evaluator; programs that do not compile are reported.', "serial macros only in this entry (parallel binary eqrel: vsched); results observed through reader relations", "6 C10-C12"),
     "C11": ("P progcheck", "bounded-exhaustive insertion histories x access patterns on compiled programs with the real trrel provider vs the explicit transitive closure", 'Programs with a clocked feeder (the input relation sched(i,[k,]a,b) is the insertion history: which pair arrives in which iteration of the recursive stratum, keys that pause and resume), an at-once feeder, a feeder split over two strata and a self-feeding rule; one reader per access pattern (every subset of bound columns, constants, repeated variable, relation first / second in a simple join, self join) placed in a later stratum and inside the recursive stratum; binary and ternary form; all schedules with <= 3 facts over pairs {0,1,2}^2, times 0..2 (ternary: 2 keys); every reader relation compared with the explicit transitive closure computed by the naive evaluator; programs that do not compile are reported.', "results observed through reader relations", "6 C10-C12"),
     "C12": ("P progcheck", "bounded-exhaustive insertion histories x access patterns on compiled programs with the real trrel_uf provider vs the explicit reflexive-transitive closure", 'Programs with a clocked feeder (the input relation sched(i,[k,]a,b) is the insertion history: which pair arrives in which iteration of the recursive stratum, keys that pause and resume), an at-once feeder, a feeder split over two strata and a self-feeding rule; one reader per access pattern (every subset of bound columns, constants, repeated variable, relation first / second in a simple join, self join) placed in a later stratum and inside the recursive stratum; binary and ternary form; all schedules with <= 3 facts over pairs {0,1,2}^2, times 0..2 (ternary: 2 keys); every reader relation compared with the explicit reflexive-transitive closure computed by the naive evaluator; programs that do not compile are reported.', "results observed through reader relations", "6 C10-C12"),
